@@ -138,6 +138,40 @@ theorem mstdp_tensor_split_nonneg (a b : Bool) (pr pi qr qi : List ℝ)
 
 end Direction
 
+/-! ## Only `|scale|` matters; every cell is routed by its own rates -/
+section ScaleCells
+
+/-- `scale_sign_irrelevant`: calling a three-factor rule (scalar reward) with `scale = −g` hands
+exactly the parts of `scale = g`: the routing flags do not see `scale`, the magnitudes see
+`|signal·scale|`. -/
+theorem scale_sign_irrelevant (lr_post lr_pre signal g zpost zpre : ℝ) :
+    mstdp_forward_scalar lr_post lr_pre signal (-g) zpost zpre =
+      mstdp_forward_scalar lr_post lr_pre signal g zpost zpre := by
+  unfold mstdp_forward_scalar absv
+  rw [mul_neg, neg_neg, max_comm]
+
+/-- with the reward's sign fixed, the applied change of the scalar branch is the signed rule scaled
+by `|signal·scale|` -/
+theorem mstdp_forward_scalar_nets (lr_post lr_pre signal g zpost zpre : ℝ) :
+    net (mstdp_forward_scalar lr_post lr_pre signal g zpost zpre) =
+      (sgnNonneg (decide (0 ≤ lr_post * signal)) * zpost + sgnNonneg (decide (0 ≤ lr_pre * signal)) * zpre)
+        * |signal * g| := by
+  unfold mstdp_forward_scalar
+  rw [mstdp_split_nets]
+  show _ = _ * max (signal * g) (-(signal * g))
+  simp only [absv]; ring
+
+/-- `per_cell_routing_uses_own_rates`: in a trainer's loop over its cells the parts of cell `i` are
+the routing of cell `i`'s OWN sign flags and magnitudes — whatever the other cells (or the
+trainer-level defaults) are. -/
+theorem per_cell_routing_uses_own_rates (route : Bool → Bool → ℝ → ℝ → Parts ℝ)
+    (cells : List (Bool × Bool × ℝ × ℝ)) (i : Nat) (h : i < cells.length) :
+    (forward_cells route cells)[i]? =
+      some (route cells[i].1 cells[i].2.1 cells[i].2.2.1 cells[i].2.2.2) := by
+  simp [forward_cells, h]
+
+end ScaleCells
+
 /-! ## Kernel trainers: clamp split of signed kernel outputs -/
 section Kernel
 
